@@ -94,7 +94,7 @@ def repaired : Fix := ⟨true, true, true⟩
 /-- THE SWITCH: the tree the correspondence engine is compared with.  Set to `repaired` once
     hooks/C11-fix-workconn-closed-pool.patch, C11-fix-negative-poolcount.patch and
     C11-fix-muxer-handoff-close.patch are committed to /repo. -/
-def current : Fix := pinned
+def current : Fix := repaired
 
 structure St where
   pc : Int := 0                 -- ctl.poolCount = pxy.poolCount
